@@ -6,7 +6,7 @@ pub const NAME_POOL: &[&str] = &[
     "Vcs-Git", "Files", "Name+x",
 ];
 
-pub const NON_ASCII: &[&str] = &["é", "ĳ", "ß", "→", "€", "日", "本", "😀", "𝔘", "\u{a0}", "\u{2028}", "ü", "Ж", "\u{feff}", "\u{200b}", "\u{3000}"];
+pub const NON_ASCII: &[&str] = &["é", "ĳ", "ß", "→", "€", "日", "本", "😀", "𝔘", "\u{a0}", "\u{2028}", "ü", "Ж", "\u{feff}", "\u{200b}", "\u{3000}", "\u{212a}", "\u{130}", "\u{1e9e}"];
 const CONTROL: &[&str] = &["\u{0}", "\u{1}", "\u{7f}", "\u{b}", "\u{c}", "\u{1b}", "\u{85}"];
 
 #[derive(Clone, Debug)]
@@ -23,6 +23,8 @@ pub struct DocFlags {
     pub max_paras: usize,
     pub max_fields: usize,
     pub multiline: bool,
+    /// fields with nothing (or only blanks) after the colon
+    pub empty_values: bool,
 }
 
 impl DocFlags {
@@ -40,6 +42,7 @@ impl DocFlags {
             max_paras: 1 + rng.below(4),
             max_fields: 1 + rng.below(5),
             multiline: rng.chance(2, 3),
+            empty_values: rng.chance(1, 4),
         }
     }
     pub fn plain() -> DocFlags {
@@ -56,6 +59,7 @@ impl DocFlags {
             max_paras: 3,
             max_fields: 4,
             multiline: true,
+            empty_values: false,
         }
     }
 }
@@ -144,6 +148,10 @@ fn field(rng: &mut Rng, f: &DocFlags, used: &mut Vec<String>) -> String {
     }
     used.push(n.clone());
     let ws = if f.tabs { *rng.pick(&[" ", "  ", "\t", " \t", "", " "]) } else { *rng.pick(&[" ", " ", " ", "  ", ""]) };
+    if f.empty_values && rng.chance(1, 3) {
+        // "Recommends:" / "Recommends: " — a field that is present but empty
+        return format!("{n}:{}\n", rng.s(&["", " ", "  ", "\t"]));
+    }
     let v = value(rng, f.non_ascii, f.multiline);
     let mut out = String::new();
     out.push_str(&n);
@@ -310,6 +318,11 @@ pub const HOSTILE: &[&str] = &[
     ":", "#", "-", " ", "\t", "\n", "\r", "\r\n", "é", "日", "😀", "\u{0}", "\u{7f}", ",", "|", "(", ")", "[", "]", "<", ">", "$", "{", "}", "=", "!",
     // Unicode blanks and invisibles of every UTF-8 length: what \s, trim() and char::is_whitespace see differently from b' '
     "\u{a0}", "\u{85}", "\u{2028}", "\u{3000}", "\u{2003}", "\u{feff}", "\u{200b}", "\u{c}", "\u{b}",
+    // characters whose lower/upper-case mapping has a different UTF-8 length (byte offsets computed on a
+    // case-folded copy do not fit the original)
+    "\u{212a}", "\u{130}", "\u{1e9e}", "\u{2126}", "\u{23a}", "\u{df}", "\u{149}", "\u{fb01}",
+    // the rest of ASCII punctuation (quotes, escapes, wildcards)
+    "\"", "'", "\\", "`", "%", "&", ";", "*", "?", "@", "^", "~", "+", "/", ".", "_",
 ];
 
 fn char_starts(s: &str) -> Vec<usize> {
@@ -324,7 +337,7 @@ fn biased_pos(rng: &mut Rng, s: &str) -> usize {
     if rng.chance(1, 2) {
         let interesting: Vec<usize> = s
             .char_indices()
-            .filter(|(_, c)| matches!(c, ':' | '\n' | '#' | ' ' | '(' | '[' | '<' | '{' | '$' | ',' | '|' | '-'))
+            .filter(|(_, c)| matches!(c, ':' | '\n' | '#' | ' ' | '(' | '[' | '<' | '{' | '$' | ',' | '|' | '-' | '=' | '"' | ')' | ']' | '>' | '}'))
             .flat_map(|(i, c)| [i, i + c.len_utf8()])
             .collect();
         if !interesting.is_empty() {
@@ -336,7 +349,7 @@ fn biased_pos(rng: &mut Rng, s: &str) -> usize {
 
 /// Apply one storage/transport fault that keeps the text valid UTF-8. Returns the fault kind.
 pub fn text_fault(rng: &mut Rng, s: &mut String) -> &'static str {
-    let kind = rng.below(11);
+    let kind = rng.below(12);
     let lines: Vec<String> = s.split_inclusive('\n').map(|l| l.to_string()).collect();
     match kind {
         0 => {
@@ -384,6 +397,22 @@ pub fn text_fault(rng: &mut Rng, s: &mut String) -> &'static str {
         7 => {
             *s = s.replace('\n', "\r\n");
             "crlf"
+        }
+        11 if !lines.is_empty() => {
+            // the tail of one line is lost (short write of a line): the line is cut somewhere inside, its terminator stays
+            let i = rng.below(lines.len());
+            let l = &lines[i];
+            let body = l.strip_suffix('\n').unwrap_or(l);
+            let starts: Vec<usize> = body.char_indices().map(|x| x.0).filter(|x| *x > 0).collect();
+            if !starts.is_empty() {
+                // prefer cutting right after a delimiter
+                let after_delim: Vec<usize> = body.char_indices().filter(|(_, c)| matches!(c, '=' | '"' | ':' | '(' | '[' | '<' | ' ' | ',' | '|')).map(|(i, c)| i + c.len_utf8()).filter(|x| *x < body.len()).collect();
+                let cut = if !after_delim.is_empty() && rng.chance(2, 3) { *rng.pick(&after_delim) } else { *rng.pick(&starts) };
+                let mut v = lines.clone();
+                v[i] = format!("{}{}", &body[..cut], if l.ends_with('\n') { "\n" } else { "" });
+                *s = v.concat();
+            }
+            "line_tail_lost"
         }
         10 => {
             // a long run of one delimiter (stack depth / quadratic behaviour probe)
